@@ -240,6 +240,27 @@ CHECKS["C19"] = dict(
     technique="Lean 4 proof (Hermite identities by ring, HasDerivAt for slope and energy, IVT/MVT monotonicity from the root test, linear reduction) + bit-exact Float correspondence with CMSolverMaterialProp + exact-arithmetic oracles on the real code and paired fsolver runs",
 )
 
+CHECKS["C14"] = dict(
+    category="proof",
+    text=("Translator tools/translate_filekeys.py regenerates, from the current C++, the key->member map of every fromStream, "
+          "the key->member map of every toStream, the member->source map of every copy-constructor chain (12 property "
+          "classes of the three file types), the problem-level keys the reader stores / the writer writes per file type, and "
+          "the stream precision. Lean theorems over Model/FileCodec.lean: if the write map is read back member for member, "
+          "has no duplicates, covers every member the reader stores and the copy constructors carry every such member, then "
+          "load(save(x)) returns every stored member (load_print) and save(load(save(x))) = save(x) (save_idempotent); the "
+          "hypotheses are discharged for the current source by kernel evaluation on the generated tables "
+          "(all_classes_ok, top_keys_*), so a dropped / renamed / cross-wired key or a member forgotten in a copy constructor "
+          "breaks a named theorem; a quoted name survives parseString whatever it contains and whatever follows the closing "
+          "quote; 17 digits; mesh-size <-> area conversion. Tied further by running the real parseString against the model. "
+          "Decided on the real tools with an independent reader: generated problems with every field set (extreme doubles, "
+          "names with blanks / quotes / = / brackets, 0..many properties, B-H / T-k tables, dT, previous solution, smart-mesh "
+          "switches), LF and FEMM-4.2 style (CRLF, odd spacing), loaded and saved twice by femmcli: same meaning, second save "
+          "byte-identical, the saved file meshed and solved by the real tools gives the same solution; fmesher rewriting the "
+          "input of periodic problems keeps its meaning. PARTIAL: the positional geometry rows are covered by the oracle only."),
+    design_ref="DESIGN.md section 3, C14",
+    technique="Lean 4 proof (generic block-codec round-trip + idempotence, hypotheses discharged by decide on tables translated from the C++; string-literal codec) + translator + parseString correspondence + independent-reader oracle on files saved by the real tools",
+)
+
 NOT_YET = "check not built yet in this round; planned per DESIGN.md section 3 (Lean model + correspondence)"
 
 
